@@ -16,12 +16,14 @@ import (
 	"path"
 	"sort"
 	"strings"
+	"sync"
 	"time"
 
 	"github.com/pingcap/kvproto/pkg/eraftpb"
 	"github.com/pingcap/kvproto/pkg/metapb"
 	"github.com/pingcap/kvproto/pkg/pdpb"
 	"github.com/pingcap/log"
+	"github.com/tikv/pd/pkg/cache"
 	"github.com/tikv/pd/pkg/mock/mockcluster"
 	"github.com/tikv/pd/pkg/mock/mockid"
 	"github.com/tikv/pd/server/cluster"
@@ -123,7 +125,33 @@ func (f *faultyKV) Remove(k string) error {
 	return f.Base.Remove(k)
 }
 
+// hookStep is a step of an operator that tells the harness when the controller looks at it: the second time IsFinish is
+// called after arming (the first call is pollNeedDispatchRegion's Operator.Check, the second one Dispatch's), the
+// callback runs - in the middle of a PushOperators round. SendScheduleCommand does not know the type and sends nothing,
+// as for the passive merge step it wraps.
+type hookCtl struct {
+	armed bool
+	count int
+	fire  func()
+}
+type hookStep struct {
+	operator.OpStep
+	ctl *hookCtl
+}
+
+func (h hookStep) IsFinish(r *core.RegionInfo) bool {
+	if h.ctl.armed {
+		h.ctl.count++
+		if h.ctl.count == 2 {
+			h.ctl.armed = false
+			h.ctl.fire()
+		}
+	}
+	return h.OpStep.IsFinish(r)
+}
+
 type world struct {
+	hook    *hookCtl
 	c       *caseIn
 	tc      *mockcluster.Cluster // mock mode
 	rc      *cluster.RaftCluster // raft mode
@@ -205,6 +233,66 @@ func newWorld(c *caseIn, rec *tikvsim.Recorder) *world {
 		dropped: map[uint64]*pdpb.RegionHeartbeatResponse{}, nextPID: 1000}
 }
 
+// recordStoreProbe drives the TTL store that keeps the operator records (pkg/cache, the constructor NewOperatorRecords
+// uses) the way buryOperator and its collector do, only faster: n keys get an entry that expires at once and stays in the
+// map until the next collection; then every key is written again (a new operator of the region has just left the running
+// set) by four writers while the collector passes; afterwards every fresh entry must be there. Returns how many are not.
+func recordStoreProbe(n int) int64 {
+	ctx, cancel := context.WithCancel(context.Background())
+	defer cancel()
+	c := cache.NewIDTTL(ctx, time.Millisecond, time.Hour)
+	lost := int64(0)
+	for r := 0; r < 5; r++ {
+		base := uint64(r * n)
+		for i := 0; i < n; i++ {
+			c.PutWithTTL(base+uint64(i), 0, 2*time.Millisecond)
+		}
+		time.Sleep(2 * time.Millisecond)
+		var wg sync.WaitGroup
+		for g := 0; g < 4; g++ {
+			wg.Add(1)
+			go func(g int) {
+				defer wg.Done()
+				for i := g; i < n; i += 4 {
+					c.Put(base+uint64(i), r+1)
+				}
+			}(g)
+		}
+		wg.Wait()
+		time.Sleep(5 * time.Millisecond)
+		for i := 0; i < n; i++ {
+			if _, ok := c.Get(base + uint64(i)); !ok {
+				lost++
+			}
+		}
+	}
+	return lost
+}
+
+// pushRoundCase: two running operators are due in the same round of the real PushOperators; while the round is busy with
+// the first region, the heartbeat that reports the second operator's applied step is processed. The second region must
+// then be pushed with the region as it is cached at ITS turn (epoch and leader of the heartbeat), not as it was when the
+// round began.
+func pushRoundCase() *caseIn {
+	vs := func(base uint64) []peerSpec {
+		return []peerSpec{{Store: 1, ID: base + 1, Role: "voter"}, {Store: 2, ID: base + 2, Role: "voter"}, {Store: 3, ID: base + 3, Role: "voter"}}
+	}
+	return &caseIn{JointSupported: true, JointEnabled: true, MaxWaiting: 5, Gen: "push-round", Events: []event{
+		{K: "region", Rid: 10, Peers: vs(1000), Leader: 1, ConfVer: 5, Version: 2},
+		{K: "region", Rid: 11, Peers: vs(1100), Leader: 1, ConfVer: 5, Version: 2},
+		{K: "create", Rid: 10, Level: 1, Desc: 1, Steps: []stepSpec{{K: "hook-merge-passive"}}},
+		{K: "create", Rid: 11, Level: 1, Desc: 2, Steps: []stepSpec{{K: "add-learner", Store: 4, ID: 1104}, {K: "promote", Store: 4, ID: 1104}}},
+		{K: "add", IDs: []int{1}},
+		{K: "add", IDs: []int{2}},
+		{K: "deliver", Rid: 11},
+		{K: "wait", ID: 5100},
+		{K: "pushround", Rid: 10, FStore: 11},
+		{K: "deliver", Rid: 11},
+		{K: "deliver", Rid: 11},
+		{K: "hb", Rid: 11},
+	}}
+}
+
 func (w *world) putRegion(r *core.RegionInfo) {
 	if w.rc != nil {
 		w.bc.PutRegion(r)
@@ -222,6 +310,23 @@ func (w *world) removeRegion(r *core.RegionInfo) {
 }
 
 func (w *world) version(rid uint64) int64 { return int64(w.sims[rid].Meta.GetRegionEpoch().GetVersion()) }
+
+func (w *world) mkStepW(s stepSpec, rngID int64, region *core.RegionInfo) operator.OpStep {
+	if s.K == "hook-merge-passive" {
+		if w.hook == nil {
+			w.hook = &hookCtl{}
+		}
+		return hookStep{OpStep: mkStep(stepSpec{K: "merge-passive"}, rngID, region), ctl: w.hook}
+	}
+	return mkStep(s, rngID, region)
+}
+
+func unhook(s operator.OpStep) operator.OpStep {
+	if h, ok := s.(hookStep); ok {
+		return h.OpStep
+	}
+	return s
+}
 
 func mkStep(s stepSpec, rngID int64, region *core.RegionInfo) operator.OpStep {
 	pl := func(xs [][2]uint64) []operator.PromoteLearner {
@@ -397,6 +502,8 @@ func (w *world) exec(e event) (string, obs) {
 		}
 	}
 	switch e.K {
+	case "recordstore":
+		return "ERecordStore " + coqfmt.Z(int64(e.ID)), obs{Res: recordStoreProbe(e.ID)}
 	case "kvfault":
 		if w.fkv != nil {
 			w.fkv.fail = e.P == "on"
@@ -477,7 +584,7 @@ func (w *world) exec(e event) (string, obs) {
 			var steps []operator.OpStep
 			kind := operator.OpKind(0)
 			for _, s := range e.Steps {
-				steps = append(steps, mkStep(s, int64(region.GetRegionEpoch().GetVersion()), region))
+				steps = append(steps, w.mkStepW(s, int64(region.GetRegionEpoch().GetVersion()), region))
 				if strings.HasPrefix(s.K, "add") || s.K == "remove" {
 					kind |= operator.OpRegion
 				}
@@ -509,7 +616,7 @@ func (w *world) exec(e event) (string, obs) {
 		}
 		steps := make([]string, op.Len())
 		for i := range steps {
-			steps[i] = tikvsim.CoqStep(op.Step(i), int64(region.GetRegionEpoch().GetVersion()))
+			steps[i] = tikvsim.CoqStep(unhook(op.Step(i)), int64(region.GetRegionEpoch().GetVersion()))
 		}
 		return fmt.Sprintf("ECreate %s %s %s %s %s %s %s %s", coqfmt.Z(int64(id)), coqfmt.ZU(e.Rid), coqfmt.ZU(op.RegionEpoch().GetConfVer()),
 			coqfmt.ZU(op.RegionEpoch().GetVersion()), coqfmt.List(steps), coqfmt.Z(int64(op.GetPriorityLevel())),
@@ -912,19 +1019,10 @@ func runCase(rec *tikvsim.Recorder, c *caseIn, r *rng.R, mode string, maxEvents 
 	var evs, obsT []string
 	out := caseOut{stats: map[string]int{}}
 	started, accepted, ended := false, false, false
-	do := func(e event) {
-		term, o := w.exec(e)
-		if e.K == "kvfault" { // the environment of the implementation, invisible to the model: replayed, not part of the history
+	record := func(e event, term string, o obs, keep bool) {
+		if keep {
 			c.Events = append(c.Events, e)
-			out.stats["kvfault:"+e.P]++
-			out.Trace = append(out.Trace, map[string]interface{}{"event": "(PD's meta storage: write fault " + e.P + ")"})
-			return
 		}
-		if term == "" { // the builder refused to build: not an event of the history
-			out.stats["create:refused"]++
-			return
-		}
-		c.Events = append(c.Events, e)
 		ot, js := w.snapshot(o)
 		evs = append(evs, term)
 		obsT = append(obsT, ot)
@@ -957,6 +1055,53 @@ func runCase(rec *tikvsim.Recorder, c *caseIn, r *rng.R, mode string, maxEvents 
 				ended = true
 			}
 		}
+	}
+	do := func(e event) {
+		switch e.K {
+		case "wait": // real time passes (push intervals); replayed, not part of the history
+			c.Events = append(c.Events, e)
+			time.Sleep(time.Duration(e.ID) * time.Millisecond)
+			return
+		case "pushround":
+			// ONE call of the real PushOperators with the operators of regions Rid and FStore due, in that order; while
+			// the round is busy with the first region a heartbeat of the second one is processed (hookStep). For the
+			// model the round is: push of the first region, the heartbeat, push of the second region.
+			c.Events = append(c.Events, e)
+			if w.hook == nil {
+				return
+			}
+			a, b := e.Rid, e.FStore
+			fired := false
+			w.hook.count, w.hook.armed = 0, true
+			w.hook.fire = func() {
+				fired = true
+				record(e, "EPush "+coqfmt.ZU(a), obs{Res: -1, Sent: w.collect()}, false)
+				term, o := w.exec(event{K: "hb", Rid: b})
+				record(event{K: "hb", Rid: b}, term, o, false)
+			}
+			w.oc.PushOperators()
+			w.hook.armed = false
+			rest := w.collect()
+			if fired {
+				record(e, "EPush "+coqfmt.ZU(b), obs{Res: -1, Sent: rest}, false)
+			} else if len(rest) > 0 {
+				record(e, "EPush "+coqfmt.ZU(a), obs{Res: -1, Sent: rest}, false)
+			}
+			out.stats[fmt.Sprintf("pushround:hook-fired:%v", fired)]++
+			return
+		}
+		term, o := w.exec(e)
+		if e.K == "kvfault" { // the environment of the implementation, invisible to the model: replayed, not part of the history
+			c.Events = append(c.Events, e)
+			out.stats["kvfault:"+e.P]++
+			out.Trace = append(out.Trace, map[string]interface{}{"event": "(PD's meta storage: write fault " + e.P + ")"})
+			return
+		}
+		if term == "" { // the builder refused to build: not an event of the history
+			out.stats["create:refused"]++
+			return
+		}
+		record(e, term, o, true)
 	}
 	if r == nil {
 		fixed := c.Events
@@ -1463,6 +1608,11 @@ func main() {
 	} else {
 		t0 := time.Now()
 		master := rng.New(*seed)
+		for _, n := range []int{2000, 500} {
+			c := &caseIn{MaxWaiting: 5, Gen: "record-store", Events: []event{{K: "recordstore", ID: n}}}
+			emit(runCase(rec, c, nil, "", 0))
+		}
+		emit(runCase(rec, pushRoundCase(), nil, "", 0))
 		for k := 0; k < *n; k++ {
 			r := master.Fork(uint64(k))
 			c := &caseIn{MaxWaiting: 5, SameIDs: r.Pct(15)}
